@@ -509,6 +509,61 @@ func runC08(c *Ctx) {
 		}
 	}
 
+	// ---- reopened-after-bb: once the blinds are set, the seats that are re-opened are those AFTER
+	// the big blind (to the end of the ring). Re-opening from an earlier position undoes the closing
+	// of the seats between the blinds, and a newcomer there is dealt in before the button passed
+	if next != nil {
+		var assigner *ssa.Function
+		for _, cc := range ix.Info[next].Calls {
+			if f := cc.StaticCallee(); f != nil && assigner == nil && ix.Info[f] != nil && ix.Info[f].TWrites["seat_manager.SeatManager.bb"] {
+				assigner = f
+			}
+		}
+		nOpen := 0
+		if assigner != nil {
+			fns := []*ssa.Function{assigner}
+			for f := range ix.Reachable(assigner) {
+				if f != assigner && f.Pkg == assigner.Pkg {
+					fns = append(fns, f)
+				}
+			}
+			sort.Slice(fns, func(i, j int) bool { return fnKey(fns[i]) < fnKey(fns[j]) })
+			for _, f := range fns {
+				s := newSumm(p, 0)
+				s.EngineAliases = false
+				for _, l := range s.loops(f) {
+					body, _ := s.LoopBody(f, l)
+					opens, uncond := false, true
+					for _, bp := range body {
+						st := bp.storesTo("seat_manager.Seat.IsActive")
+						isOpen := false
+						for _, e := range st {
+							if e.Val.String() == "true" {
+								isOpen = true
+							}
+						}
+						if isOpen {
+							opens = true
+						} else if bp.End == "continue" {
+							uncond = false
+						}
+					}
+					if !opens || !uncond {
+						continue // not the unconditional re-opening pass
+					}
+					ri := analyseRange(l)
+					if ri.Kind != "slice" || ri.Coll == nil {
+						continue
+					}
+					nOpen++
+					ok := afterBigBlind(ix, ri.Coll, f, 0)
+					c.check(ok, "reopened-after-bb", fnKey(f), p.FnPos(f), "the seats re-opened after the blinds are set are those after the big blind", "seats are re-opened from before the big blind: the seats just closed between the blinds are open again")
+				}
+			}
+		}
+		c.floor("reopened-after-bb", "unconditional re-opening passes below the blind assignment", nOpen, 1)
+	}
+
 	// ring builder
 	if rb := p.Func(smPkg, "SeatManager", "getNormalizeSeats"); rb == nil {
 		// resolve by role: callee whose result is sliced [1:] in the assigner; fall back to name of exported wrapper
@@ -844,4 +899,93 @@ func ringFromDealer(ix *Index, v ssa.Value, fn *ssa.Function, depth int) bool {
 		return len(x.Edges) > 0
 	}
 	return false
+}
+
+// afterBigBlind: the slice value is s[1:] of a slice that starts at the big blind's position.
+func afterBigBlind(ix *Index, v ssa.Value, fn *ssa.Function, depth int) bool {
+	if depth > 3 {
+		return false
+	}
+	switch x := v.(type) {
+	case *ssa.Slice:
+		if lo, ok := constInt(x.Low); ok && lo == 1 && x.High == nil {
+			return startsAtBigBlind(ix, x.X, fn, depth)
+		}
+	case *ssa.Parameter:
+		return viaCallers(ix, x, fn, func(a ssa.Value, cl *ssa.Function) bool { return afterBigBlind(ix, a, cl, depth+1) })
+	}
+	return false
+}
+
+// startsAtBigBlind: the slice value is t[idx:] where (bb, idx) is the result of the search whose
+// first result is stored as the big blind; or what a package function returns / is given as such.
+func startsAtBigBlind(ix *Index, v ssa.Value, fn *ssa.Function, depth int) bool {
+	if depth > 3 {
+		return false
+	}
+	switch x := v.(type) {
+	case *ssa.Slice:
+		ex, ok := x.Low.(*ssa.Extract)
+		if !ok || ex.Index != 1 || x.High != nil {
+			return false
+		}
+		// the same call's first result is stored to the bb field
+		for _, ref := range *ex.Tuple.Referrers() {
+			if e0, ok := ref.(*ssa.Extract); ok && e0.Index == 0 {
+				for _, r2 := range *e0.Referrers() {
+					if st, ok := r2.(*ssa.Store); ok && accessKey(st.Addr) == "seat_manager.SeatManager.bb" {
+						return true
+					}
+				}
+			}
+		}
+		return false
+	case *ssa.Call:
+		f := x.Call.StaticCallee()
+		if f == nil || f.Pkg != fn.Pkg || f.Blocks == nil {
+			return false
+		}
+		n := 0
+		for _, b := range f.Blocks {
+			if r, ok := b.Instrs[len(b.Instrs)-1].(*ssa.Return); ok && len(r.Results) >= 1 {
+				n++
+				if !startsAtBigBlind(ix, r.Results[0], f, depth+1) {
+					return false
+				}
+			}
+		}
+		return n > 0
+	case *ssa.Phi:
+		for _, e := range x.Edges {
+			if !startsAtBigBlind(ix, e, fn, depth) {
+				return false
+			}
+		}
+		return len(x.Edges) > 0
+	case *ssa.Parameter:
+		return viaCallers(ix, x, fn, func(a ssa.Value, cl *ssa.Function) bool { return startsAtBigBlind(ix, a, cl, depth+1) })
+	}
+	return false
+}
+
+func viaCallers(ix *Index, prm *ssa.Parameter, fn *ssa.Function, ok func(arg ssa.Value, caller *ssa.Function) bool) bool {
+	idx := -1
+	for i, q := range fn.Params {
+		if q == prm {
+			idx = i
+		}
+	}
+	callers := ix.Callers(fn)
+	if idx < 0 || len(callers) == 0 {
+		return false
+	}
+	for _, cl := range callers {
+		for _, cs := range ix.CallSites(cl, fn) {
+			args := cs.Common().Args
+			if idx >= len(args) || !ok(args[idx], cl) {
+				return false
+			}
+		}
+	}
+	return true
 }
